@@ -115,6 +115,7 @@ EXTRA["C01"] = "Scenarios include rarely used model options (setBetaBinary(2), e
 EXTRA["C03"] = EXTRA["C01"]
 EXTRA["C01"] += " " + _C01
 NOTE_OVERRIDE = {
+    "C03": "faults start after the model's set-up (there are no last valid values before it); analytic backends; step cap; open finding KF-C03-4: with the volume step limit switched off (constraints.checkVolumePre = False) the total precipitate fraction can exceed 1 (matched by predicate, anything else is reported)",
     "C20": "toy/stub backends (the file format and the surrogate plumbing do not depend on the database); training sets are generated non-degenerate (distinct, non-collinear points)",
 }
 
